@@ -102,6 +102,7 @@ static inline void mpz_mod(mpz_ptr r, mpz_srcptr a, mpz_srcptr m)
   __CPROVER_assume(m->v != (-0x7fffffffffffffffL - 1));
   __CPROVER_assume(0 <= x && x < __abs_l(m->v));        /* manual: result is always non-negative and < |m| */
   __CPROVER_assume((0 <= a->v && a->v < __abs_l(m->v)) ==> x == a->v); /* reduced values are fixed points */
+  __bits_mono(x, m->v);                                   /* the residue is not longer than the modulus */
   r->v = x;
 }
 static inline void mpz_powm(mpz_ptr r, mpz_srcptr b, mpz_srcptr e, mpz_srcptr m)
@@ -151,6 +152,9 @@ static inline void mpz_pow_ui(mpz_ptr r, mpz_srcptr a, unsigned long e) { r->v =
 static inline void mpz_sqrt(mpz_ptr r, mpz_srcptr a) { r->v = UF(sqrt)(a->v); }
 static inline void mpz_swap(mpz_ptr a, mpz_ptr b) { long t = a->v; a->v = b->v; b->v = t; }
 
+#ifdef VEC_DECL
+VEC_DECL(vec_mpz, mpz_ptr)   /* std::vector<mpz_ptr> when stl.h is in use */
+#endif
 /* spec-level names for the same terms (used in contracts) */
 /* side condition "machine arithmetic treated as mathematical" for spec terms that add or negate */
 #define WORD_OK(x) ((x) > -0x7ffffffffffffff0L && (x) < 0x7ffffffffffffff0L)
